@@ -537,3 +537,105 @@ class DRef(Ref):
         return self.fld.compare(s[2][1], self.ev(s[1]), self.ev(s[3]))
 
 # }}}
+
+
+# {{{ floating-point tail evaluation (evaluability far from the origin)
+
+class FloatSkip(Exception):
+    """The input (or its true derivative) is not representable at this float point."""
+
+
+def _stable_table(name, u):
+    """(f(u), f'(u)) in floats with overflow-free textbook formulas (independent of the code under
+    test).  Raises OverflowError / ValueError where f itself is not evaluable."""
+    if name == "sin":
+        return math.sin(u), math.cos(u)
+    if name == "cos":
+        return math.cos(u), -math.sin(u)
+    if name == "tan":
+        c = math.cos(u)
+        return math.tan(u), 1.0 / (c * c)
+    if name == "log":
+        return math.log(u), 1.0 / u
+    if name == "exp":
+        e = math.exp(u)
+        return e, e
+    if name == "sinh":
+        return math.sinh(u), math.cosh(u)
+    if name == "cosh":
+        return math.cosh(u), math.sinh(u)
+    if name == "tanh":
+        q = math.exp(-2.0 * abs(u))              # sech^2 = 4q/(1+q)^2, never overflows
+        return math.tanh(u), 4.0 * q / ((1.0 + q) * (1.0 + q))
+    if name == "expm1":
+        return math.expm1(u), math.exp(u)
+    if name == "fabs":
+        if u == 0:
+            raise FloatSkip("break")
+        return math.fabs(u), math.copysign(1.0, u)
+    raise KeyError(name)
+
+
+def _fin(*vals):
+    for v in vals:
+        if math.isnan(v) or math.isinf(v):
+            raise FloatSkip("not finite")
+    return vals if len(vals) > 1 else vals[0]
+
+
+def float_dual(s, env, dv):
+    """Forward mode in floats: (value, d/d dv) of the input spec *s* at *env* (names -> float).
+    Every intermediate of the textbook rules must be finite, else the point is skipped."""
+    return _fin(*_float_dual(s, env, dv))
+
+
+def _float_dual(s, env, dv):
+    t = s[0]
+    if t in ("int", "float"):
+        return float(s[1]), 0.0
+    if t == "Variable":
+        return float(env[s[1][1]]), (1.0 if s == dv else 0.0)
+    if t == "Sum":
+        v = d = 0.0
+        for c in s[1][1:]:
+            cv, cd = float_dual(c, env, dv)
+            v, d = v + cv, d + cd
+        return v, d
+    if t == "Product":
+        v, d = 1.0, 0.0
+        for c in s[1][1:]:
+            cv, cd = float_dual(c, env, dv)
+            v, d = _fin(v * cv, _fin(d * cv) + _fin(v * cd))
+        return v, d
+    if t == "Quotient":
+        fv, fd = float_dual(s[1], env, dv)
+        gv, gd = float_dual(s[2], env, dv)
+        if gv == 0:
+            raise FloatSkip("pole")
+        g2 = _fin(gv * gv)
+        return fv / gv, _fin(_fin(fd * gv) - _fin(fv * gd)) / g2
+    if t == "Power":
+        if s[2][0] != "int":
+            raise NotInFragment("tail family: constant integer exponents only")
+        fv, fd = float_dual(s[1], env, dv)
+        n = s[2][1]
+        if fv == 0 and n <= 0:
+            raise FloatSkip("pole")
+        return fv ** n, (n * _fin(fv ** (n - 1)) * fd if n else 0.0)
+    if t == "CommonSubexpression":
+        return float_dual(s[1], env, dv)
+    if t == "Call":
+        cls = call_class(s)
+        name, args = math_call(s) if cls != "unknown" else (None, None)
+        if cls == "sign":
+            uv, _ = float_dual(args[1], env, dv)
+            if uv == 0:
+                raise FloatSkip("break")
+            return math.copysign(float(args[0][1]), uv), 0.0
+        if cls in ("smooth", "fabs"):
+            uv, ud = float_dual(args[0], env, dv)
+            fv, fdv = _stable_table(name, uv)
+            return fv, _fin(fdv) * ud
+    raise NotInFragment(t)
+
+# }}}
